@@ -130,14 +130,15 @@ def run_batch(c, rec):
 
     client = make_client(c['kind'], lambda text, is_notif, kw: body, strict=strict)
     batch = client.batch
-    for i in range(n):
-        batch.add('m%d' % i, i)
-        if c['notif'] and i == 0:
-            batch.notify('note', 1)
-    requests = list(batch._requests) if hasattr(batch, '_requests') else None
+    requests = None
     if c['via'] == 'call':
+        for i in range(n):
+            batch.add('m%d' % i, i)
+            if c['notif'] and i == 0:
+                batch.notify('note', 1)
         out = drive(c["kind"], batch.call)
     else:
+        # a hand-built batch request sent through a fresh batch wrapper (nothing was add()ed to it)
         req = BatchRequest(*[Request('m%d' % i, [i], id=i + 1) for i in range(n)])
         requests = list(req)
         out = drive(c["kind"], lambda: batch.send(req))
